@@ -645,8 +645,8 @@ pub enum ShaderStorage<'a, 'b> {
 // a reference to it. The goal is to avoid a heap allocation but the end
 // result is pretty ugly.
 pub fn choose_shader<'a, 'b, 'c>(ti: &Transform, src: &'b Source<'c>, alpha: f32, shader_storage: &'a mut ShaderStorage<'b, 'c>) -> &'a dyn Shader {
-    // XXX: clamp alpha
-    let alpha = (alpha * 255. + 0.5) as u32;
+    // the cast to u8 clamps alpha to 0..=255
+    let alpha = (alpha * 255. + 0.5) as u8 as u32;
 
     *shader_storage = match src {
         Source::Solid(c) => {
